@@ -27,11 +27,11 @@ TYPE_NAMES = ['int', 'str', 'bytes', 'bytearray', 'list', 'tuple', 'dict', 'bool
 
 SORT_OF = {
     'Int': T.I, 'Bool': T.B, 'Bytes': S.sort, 'ByteArray': S.sort, 'ListInt': S.sort, 'ListByte': S.sort,
-    'Str': S.sort, 'Latin1': S.sort, 'SeqInt': S.sort, 'SeqBytes': T.SeqS.sort, 'SeqStr': T.SeqS.sort,
+    'Str': S.sort, 'Latin1': S.sort, 'SeqInt': S.sort, 'IntSeq': S.sort, 'SeqBytes': T.SeqS.sort, 'SeqStr': T.SeqS.sort,
     'Opaque': T.Obj, 'ListBytes': T.SeqS.sort, 'ListObj': T.SeqO.sort, 'SeqObj': T.SeqO.sort,
 }
 KIND_OF = {'Bytes': 'bytes', 'ByteArray': 'bytearray', 'ListInt': 'list', 'ListByte': 'list', 'Str': 'str',
-           'Latin1': 'str', 'SeqInt': 'list', 'SeqBytes': 'list', 'SeqStr': 'list', 'ListBytes': 'list',
+           'Latin1': 'str', 'SeqInt': 'list', 'IntSeq': 'list', 'SeqBytes': 'list', 'SeqStr': 'list', 'ListBytes': 'list',
            'ListObj': 'list', 'SeqObj': 'list'}
 
 
@@ -553,7 +553,7 @@ class Context:
             return VBool(I.fresh(name, T.B))
         if n == 'NoneT':
             return NONE
-        if n in ('Bytes', 'Str', 'Latin1', 'SeqInt', 'SeqBytes', 'SeqStr', 'SeqObj'):
+        if n in ('Bytes', 'Str', 'Latin1', 'SeqInt', 'IntSeq', 'SeqBytes', 'SeqStr', 'SeqObj'):
             th = {'SeqBytes': T.SeqS, 'SeqStr': T.SeqS, 'SeqObj': T.SeqO}.get(n, S)
             t = I.fresh(name, th.sort)
             if n in ('Bytes', 'Latin1'):
@@ -844,6 +844,8 @@ class Context:
             if k >= len(evs):
                 raise Unsupported('event_arg: fewer than %d events %s on this path' % (k + 1, name), node)
             return evs[k].args[j]
+        if fn == 'mention':
+            return VBool(T.MentionI(I.as_int(I.ev(node.args[0], frame))))
         if fn == 'truthy':
             return VBool(I.truthy(I.ev(node.args[0], frame)))
         if fn == 'event_result':
@@ -991,6 +993,17 @@ class Context:
             return ('opaque', ('%s.%s' % (recv.label, f.attr)) if recv.label else f.attr)
         return None
 
+    def eval_pre(self, I, expr, env, sidecar, old_state, entry_env):
+        """Evaluate a `when` condition: it speaks about the state at entry."""
+        saved = I.st
+        tmp = old_state.snapshot()
+        tmp.counter = saved.counter + 200000
+        I.st = tmp
+        try:
+            return self.eval_spec(I, expr, dict(entry_env), sidecar, old_state, entry_env)
+        finally:
+            I.st = saved
+
     def eval_spec(self, I, expr, env, sidecar, old_state, entry_env, result=None, has_result=False, exc=None):
         fr = Frame(env, None, sidecar=sidecar)
         fr.spec = SpecCtx(old_state=old_state, entry_env=entry_env, result=result, has_result=has_result, exc=exc)
@@ -1125,6 +1138,13 @@ class Context:
             return isinstance(v, VSeq) and v.kind == 'bytes'
         if n in ('ListInt', 'ListByte', 'ListBytes', 'ListObj'):
             return I.is_list(v) and I.cell(v).kind == 'list'
+        if n == 'IntSeq':
+            if isinstance(v, VSeq):
+                return v.th is S and v.kind in ('bytes', 'bytearray', 'list', 'tuple')
+            if I.is_list(v):
+                c = I.cell(v).content
+                return (isinstance(c, VSeq) and c.th is S) or (isinstance(c, list) and all(isinstance(x, VInt) for x in c))
+            return False
         if n == 'ByteArray':
             return I.is_list(v) and I.cell(v).kind == 'bytearray'
         if n == 'NoneT':
@@ -1301,6 +1321,11 @@ class Context:
                     reqs, enss, decs = self.lemma_clauses(lem)
                     for r in reqs:
                         I.assume(I.truthy(self.eval_spec(I, r, env, lem.sidecar, None, None)))
+                    if not dec:
+                        ok = prover.feasible(self.axioms(), I.st.pc, z3.BoolVal(True), timeout_ms=3000)
+                        self.record(Obligation('lemma %s:vacuity:requires-satisfiable' % lem.name, 'lemma ' + lem.name, 'vacuity',
+                                               'discharged' if ok else 'failed', 'z3-5.1.0(cover)', 0.0, [],
+                                               '' if ok else 'contradictory hypotheses'))
                     fr = Frame(env, None, sidecar=lem.sidecar)
                     fr.spec = SpecCtx()
                     for st in lem.node.body:
@@ -1374,6 +1399,11 @@ class Context:
             work += I.pending
         self.current = None
         self.current_fi = None
+        if not rep.unsupported:
+            live = getattr(rep, 'live_paths', 0)
+            self.record(Obligation('%s:vacuity:live-path' % fi.qualname, fi.qualname, 'vacuity',
+                                   'discharged' if live > 0 else 'failed', 'z3-5.1.0(cover)', 0.0, [],
+                                   '' if live else 'no feasible path reaches an exit of the function'))
         rep.secs = time.time() - t0
         return rep
 
@@ -1392,6 +1422,12 @@ class Context:
         pre = I.st.snapshot()
         entry_env = dict(env)
         I.entry = SpecCtx(old_state=pre, entry_env=entry_env)
+        if not I.decisions:
+            # vacuity cover: the precondition (with the parameter type invariants) must be satisfiable
+            ok = prover.feasible(self.axioms(), I.st.pc, z3.BoolVal(True), timeout_ms=3000)
+            self.record(Obligation('%s:vacuity:requires-satisfiable' % fi.qualname, fi.qualname, 'vacuity',
+                                   'discharged' if ok else 'failed', 'z3-5.1.0(cover)', 0.0, [],
+                                   '' if ok else 'the precondition is contradictory: every obligation of this function would hold vacuously'))
         frame = Frame(dict(env), fi.module, fi.cls, fi)
         for c in contract.of('hint'):
             fr = Frame(dict(env), None, sidecar=contract.sidecar)
@@ -1406,6 +1442,8 @@ class Context:
         except PyExc as pe:
             exc = pe.exc
         q = fi.qualname
+        if prover.feasible(self.axioms(True), I.st.pc, z3.BoolVal(True), timeout_ms=1000):
+            self.reports[contract.key].live_paths = getattr(self.reports[contract.key], 'live_paths', 0) + 1
         if exc is None:
             for c in contract.of('hint_exit'):
                 fr = Frame(dict(env), None, sidecar=contract.sidecar)
@@ -1421,7 +1459,7 @@ class Context:
             for k, c in enumerate(contract.of('raises')):
                 kw = {x.arg: x.value for x in c.keywords}
                 if 'when' in kw and not any(x.arg == 'may' for x in c.keywords):
-                    cond = I.truthy(self.eval_spec(I, kw['when'], env, contract.sidecar, pre, entry_env))
+                    cond = I.truthy(self.eval_pre(I, kw['when'], env, contract.sidecar, pre, entry_env))
                     I.prove('%s:raises#%d:must-raise' % (q, k + 1), 'exceptional', z3.Not(cond), c)
         else:
             matched = False
@@ -1435,19 +1473,22 @@ class Context:
                             v = self.eval_spec(I, kw['ensures'], env, contract.sidecar, pre, entry_env, exc=exc)
                             I.prove('%s:propagates#%d:ensures' % (q, k + 1), 'exceptional', I.truthy(v), c)
             else:
+                conds = []
                 for k, c in enumerate(contract.of('raises')):
                     nm = ast.unparse(c.args[0])
                     if self.exc_isinstance(exc.cls, nm.split('.')[-1]) or self.exc_isinstance(exc.cls, nm):
                         matched = True
                         kw = {x.arg: x.value for x in c.keywords}
+                        cond = z3.BoolVal(True)
                         if 'when' in kw:
-                            cond = I.truthy(self.eval_spec(I, kw['when'], env, contract.sidecar, pre, entry_env))
-                            I.prove('%s:raises#%d:only-when' % (q, k + 1), 'exceptional', cond, c,
-                                    detail='raised %s (%s)' % (exc.cls, exc.origin))
+                            cond = I.truthy(self.eval_pre(I, kw['when'], env, contract.sidecar, pre, entry_env))
+                        conds.append(cond)
                         if 'ensures' in kw:
                             v = self.eval_spec(I, kw['ensures'], env, contract.sidecar, pre, entry_env, exc=exc)
-                            I.prove('%s:raises#%d:ensures' % (q, k + 1), 'exceptional', I.truthy(v), c)
-                        break
+                            I.prove('%s:raises#%d:ensures' % (q, k + 1), 'exceptional', z3.Implies(cond, I.truthy(v)), c)
+                if matched:
+                    I.prove('%s:raises:only-when[%s]' % (q, exc.cls), 'exceptional', z3.Or(*conds), fi.node,
+                            detail='raised %s (%s)' % (exc.cls, exc.origin))
             if not matched:
                 I.prove('%s:no-unexpected-exception[%s]' % (q, exc.cls), 'exceptional', False, fi.node,
                         detail='path ends with %s from %s' % (exc.cls, exc.origin))
